@@ -73,6 +73,37 @@ def mutate(rng, text):
     return ''.join(chars)
 
 
+def bare_annotation_clauses(ck, rng, parser, message):
+    """every annotation name of the parser's vocabulary written without options, on the identifier line, a parameter and the
+    return value: nothing raises, the block survives, and whatever is diagnosed names the line of the annotation"""
+    import giscanner.annotationparser as ap
+    names = sorted(set(v for k, v in vars(ap).items() if k.startswith('ANN_') and isinstance(v, str)))
+    for nm in names:
+        for where in ('identifier', 'parameter', 'returns'):
+            lines = ['/**', ' * FooThing:%s' % (' (%s)' % nm if where == 'identifier' else ''),
+                     ' * @p: %sa parameter' % ('(%s): ' % nm if where == 'parameter' else ''), ' *', ' * Description.', ' *',
+                     ' * Returns: %sa value' % ('(%s): ' % nm if where == 'returns' else ''), ' */']
+            text = '\n'.join(lines)
+            target = {'identifier': 1, 'parameter': 2, 'returns': 6}[where]
+            start = rng.choice([1, 40])
+            logger, out = fresh_logger(message)
+            ck.count_case(dict(annotation=nm, where=where), kind='bare:' + where)
+            case = dict(text=text, first_line=start, annotation='(%s)' % nm, on=where)
+            try:
+                blk = parser.parse_comment_block(text, '/src/dir/foo.c', start)
+            except BaseException as e:      # noqa
+                ck.failing_input('parse_comment_block raises %s on an annotation written without options' % type(e).__name__, case, detail=repr(e))
+                continue
+            if blk is None or blk.name != 'FooThing' or 'p' not in blk.params:
+                ck.failing_input('a block with an annotation written without options is lost', case)
+                continue
+            for d in parse_log(out.getvalue()):
+                if d['line'] != start + target:
+                    ck.failing_input('a diagnostic names line %d, the offending text stands on line %d' % (d['line'], start + target), case, detail=d)
+                if d['quoted'] is not None and d['quoted'] != lines[target]:
+                    ck.failing_input('the quoted line of a diagnostic is not the source line', case, detail=d)
+
+
 def deprecated_tag_clauses(ck, rng, parser, message, n):
     """the deprecated tag-style annotations ("Transfer: full", "Attributes: (k v)") are still accepted with a deprecation warning;
     every diagnostic about them names the file and the line of the tag (quoting and caret are not judged for this form), and a
@@ -356,6 +387,7 @@ def main(tier, seed):
             ck.failing_input('the warning count differs from the number of diagnostics written', case,
                              detail=dict(written=len(diags), counted=logger.get_warning_count()))
     deprecated_tag_clauses(ck, rng, parser, message, 40 if tier == 'quick' else 600)
+    bare_annotation_clauses(ck, rng, parser, message)
     scanner_main_clauses(ck, rng, tier)
     return ck.finish(rule='(1) a damaged comment (character insertions/deletions incl. NUL, U+2028 and non-ASCII, shuffled lines, truncation, '
                           'other line endings, trailing code, soup) between two well-formed ones: no exception, both neighbours kept, every '
